@@ -29,6 +29,8 @@ def _install_postconditions():
     orig_c, orig_n = Clamping.hook, Normalization.hook
 
     def clamp_hook(self, module):
+        if _POST.get("order_sink") is not None:
+            _POST["order_sink"].append("inferno")
         orig_c(self, module)
         v = rgetattr(self.module, self.attribute)
         _POST["clamp_evals"] += 1
@@ -41,6 +43,8 @@ def _install_postconditions():
                                         f"[{float(v.min())}, {float(v.max())}]"))
 
     def norm_hook(self, module):
+        if _POST.get("order_sink") is not None:
+            _POST["order_sink"].append("inferno")
         before = rgetattr(self.module, self.attribute).detach().clone()
         orig_n(self, module)
         v = rgetattr(self.module, self.attribute).detach()
@@ -286,11 +290,19 @@ def _fsm(ctx, desc):
             return ctx.violation(ctx.exc_signature(e, f"fsm.{kind}.{op}"), f"{type(e).__name__}: {str(e)[:140]}", rdesc)
 
 
+class _Boom(RuntimeError):
+    pass
+
+
 class _Holder(nn.Module):
     def __init__(self):
         super().__init__()
+        self.raise_next = False
 
     def forward(self, x=None):
+        if self.raise_next:
+            self.raise_next = False
+            raise _Boom("forward failed")
         return x
 
 
@@ -401,6 +413,49 @@ def _post(ctx, desc):
                 return ctx.violation(f"post.{desc['which']}.changed_when_not_armed", "attribute changed although the hook was not armed", desc)
         except Exception as e:  # noqa: BLE001
             return ctx.violation(ctx.exc_signature(e, f"post.{desc['which']}.{target}"), f"{type(e).__name__}: {str(e)[:140]}", desc)
+    if target in ("plain", "buffer", "nested3"):
+        # --- position among several hooks (prepend) and firing when the module call raises (always_call, post position)
+        mod.train(True)
+        armed = bool(desc["train_update"])
+        order = []
+        marker = _POST.setdefault("order_log", [])
+        marker.clear()
+        other = (mod.register_forward_pre_hook(lambda *a: order.append("other")) if desc["pre"]
+                 else mod.register_forward_hook(lambda *a: order.append("other")))
+        # the foreign hook registered AFTER ours runs after ours by default; ours with prepend=True also precedes hooks that
+        # were registered BEFORE it: re-register ours after the foreign one to make the difference observable
+        hk.deregister()
+        hk.register()
+        try:
+            assign(fresh())
+            f0 = _POST["clamp_evals"] + _POST["norm_evals"]
+            _POST["order_sink"] = order
+            call()
+            _POST["order_sink"] = None
+            if armed:
+                want = ["inferno", "other"] if desc.get("prepend") else ["other", "inferno"]
+                ctx.count("hook_order_checks")
+                if order != want:
+                    other.remove()
+                    return ctx.violation(f"post.{desc['which']}.position_among_hooks.prepend{int(bool(desc.get('prepend')))}",
+                                         f"order of execution {order}, expected {want}", desc)
+            if not desc["pre"]:
+                mod.raise_next = True
+                f1 = _POST["clamp_evals"] + _POST["norm_evals"]
+                try:
+                    call()
+                except _Boom:
+                    pass
+                fired = _POST["clamp_evals"] + _POST["norm_evals"] - f1
+                want_f = 1 if (armed and desc.get("always_call")) else 0
+                ctx.count("raising_call_checks")
+                if fired != want_f:
+                    other.remove()
+                    return ctx.violation(f"post.{desc['which']}.firing_when_forward_raises.always_call{int(bool(desc.get('always_call')))}",
+                                         f"fired {fired} times on a module call that raised, expected {want_f}", desc)
+        finally:
+            _POST["order_sink"] = None
+            other.remove()
     for mech, what in _POST["violations"][nv0:]:
         return ctx.violation(f"post.{mech}.{target}", what, desc)
     n = _POST["clamp_evals"] + _POST["norm_evals"] - e0
